@@ -1,10 +1,14 @@
 (* C10 Unpack result depends only on spec and input bytes, not on prior state.
-   Proved: for primitive fields the result and the state after a successful Unpack are independent of the prior
-   state. Composites and messages: unpack_f/m_unpack reset the presence sets before decoding (Model/Field.v mirrors
-   composite.go after the repair of F12); instances below by computation; the general theorem over histories
-   (C10_statement) is checked by the oracle and not yet proved. *)
+   Proved: for primitive fields, for every composite field (any nesting, all three modes) and for whole messages the
+   outcome of Unpack does not depend on what the object held, and after a successful Unpack neither does anything
+   the object holds (the complete state, hence every observable: values, nested subfields, re-packed bytes, JSON),
+   for objects in a clean state: every subfield / data element that is not set is as new. Clean is the invariant of
+   the objects the library builds: new objects are clean, and Unpack (also a failing one) and UnsetField keep it
+   (C10_*_clean); for the other writers (setters, Marshal, JSON, unset by path) it is checked by the correspondence on
+   histories, not proved. This rests on the repairs F12 (presence sets are reset), F28 (what was set is re-created)
+   and F30 (what failed is re-created); track fields: model and search only. *)
 From Iso Require Import Model.Base Model.Padding Model.Encoding Model.Prefix Model.Bitmap Model.Spec Model.Field Model.Message
-     Proofs.BaseLemmas Proofs.FieldProofs Properties.C01.
+     Proofs.BaseLemmas Proofs.FieldProofs Proofs.CompositeProofs Proofs.MessageRoundtrip Proofs.IndependenceProofs Properties.C01.
 
 Theorem C10_prim : forall p st0 st1 data,
   snd (prim_unpack p st0 data) = snd (prim_unpack p st1 data) /\
@@ -12,13 +16,45 @@ Theorem C10_prim : forall p st0 st1 data,
 Proof. exact prim_unpack_state_independent. Qed.
 Print Assumptions C10_prim.
 
+Theorem C10_composite : forall pref len mode subs st0 st1 d, NoDup (map fst subs) ->
+  let s := FComp pref len mode subs in
+  clean s st0 -> clean s st1 ->
+  snd (unpack_f s st0 d) = snd (unpack_f s st1 d) /\
+  (u_is_ok (snd (unpack_f s st0 d)) = true -> fst (unpack_f s st0 d) = fst (unpack_f s st1 d)).
+Proof. exact unpack_f_independent. Qed.
+Print Assumptions C10_composite.
+
+Theorem C10_message : forall S m0 m1 d, NoDup (map fst (ms_fields S)) -> msg_clean S m0 -> msg_clean S m1 ->
+  snd (m_unpack S m0 d) = snd (m_unpack S m1 d) /\
+  (u_is_ok (snd (m_unpack S m0 d)) = true ->
+     m_mti (fst (m_unpack S m0 d)) = m_mti (fst (m_unpack S m1 d)) /\
+     m_bm (fst (m_unpack S m0 d)) = m_bm (fst (m_unpack S m1 d)) /\
+     m_fields (fst (m_unpack S m0 d)) = m_fields (fst (m_unpack S m1 d)) /\
+     forall id, zmem id (m_present (fst (m_unpack S m0 d))) = zmem id (m_present (fst (m_unpack S m1 d)))).
+Proof. exact m_unpack_independent. Qed.
+Print Assumptions C10_message.
+
+(* clean is an invariant: of new objects, of Unpack whatever its outcome, of UnsetField *)
+Theorem C10_fresh_clean : (forall s, (match s with FComp _ _ _ subs => NoDup (map fst subs) | _ => True end) -> clean s (fresh s)) /\
+                          (forall S, NoDup (map fst (ms_fields S)) -> msg_clean S (mfresh S)).
+Proof. split; [exact fresh_clean|exact mfresh_clean]. Qed.
+Print Assumptions C10_fresh_clean.
+
+Theorem C10_unpack_clean :
+  (forall pref len mode subs st d, NoDup (map fst subs) -> let s := FComp pref len mode subs in clean s st -> clean s (fst (unpack_f s st d))) /\
+  (forall S m d, NoDup (map fst (ms_fields S)) -> msg_clean S m -> msg_clean S (fst (m_unpack S m d))) /\
+  (forall S m id, NoDup (map fst (ms_fields S)) -> (forall i s, In (i, s) (ms_fields S) -> 2 <= i) -> msg_clean S m -> msg_clean S (m_unset S m id)).
+Proof. split; [exact unpack_f_clean|split; [exact m_unpack_clean|exact m_unset_clean]]. Qed.
+Print Assumptions C10_unpack_clean.
+
 (* a tagged composite that was populated with both subfields and is then used to unpack only one of them shows
    exactly that one (the F12 scenario), and holds nothing of what it held before (F28: Unpack discards the
    values of the subfields that were set) *)
 Example C10_ex_comp :
   let used := SComp [[x31]; [x32]] [([x31], SNumeric 7); ([x32], SBinary [xcd])] in
+  clean c_ex used /\
   let d := [x30; x36; x30; x31; x30; x32; x34; x32] in
   fst (unpack_f c_ex used d) = SComp [[x31]] [([x31], SNumeric 42); ([x32], SBinary [])] /\
   fst (unpack_f c_ex used d) = fst (unpack_f c_ex (fresh c_ex) d) /\
   pack_f c_ex (fst (unpack_f c_ex used d)) = pack_f c_ex (fst (unpack_f c_ex (fresh c_ex) d)).
-Proof. split; [|split]; vm_compute; reflexivity. Qed.
+Proof. split; [split; [reflexivity|intros t s' [H|[H|[]]] Hm; inversion H; subst; discriminate Hm]|split; [|split]; vm_compute; reflexivity]. Qed.
